@@ -474,6 +474,35 @@ def _safe_prefix_needle(t) -> bool:
     return isinstance(t, tuple) and len(t) >= 2 and t[0] == "fstr" and t[-1] == ("const", repr("."))
 
 
+def _needle_kind(v) -> str:
+    """safe | bare | unknown for the needle of `name.startswith(needle)`.
+
+    safe: the needle - or *every* element of a tuple / list needle (`str.startswith(tuple)`), however it was built: literal,
+    comprehension, generator, map over the names - ends in the dot separator (f"{name}." / name + "."); bare: it is (or contains) a
+    whole module name without the separator; unknown: a collection whose elements are of another shape."""
+    from .absint import Alt, Tup
+
+    if isinstance(v, Alt):
+        kinds = {_needle_kind(o) for _g, o in v.options}
+        return "bare" if "bare" in kinds else "safe" if kinds == {"safe"} else "unknown"
+    if isinstance(v, (Coll, Tup)):
+        elems = [x for x, _g in v.entries] if isinstance(v, Coll) else list(v.items)
+        kinds = {_needle_kind(x) for x in elems}
+        return "bare" if "bare" in kinds else "safe" if kinds <= {"safe"} else "unknown"
+    if isinstance(v, Const):
+        return "safe" if isinstance(v.value, str) and v.value.endswith(".") else "bare"
+    t = term_of(v)
+    if _safe_prefix_needle(t):
+        return "safe"
+    if isinstance(t, tuple) and t and t[0] in ("copy", "keys", "values", "flat", "binop", "call", "slice"):
+        # a collection (or derived value) the interpreter holds symbolically: bare if it is made of whole names only
+        subs = list(subterms(t))
+        if any(_safe_prefix_needle(st) for st in subs):
+            return "unknown"
+        return "bare" if any(_plain_name(st) for st in subs) else "unknown"
+    return "bare"
+
+
 def run_t5(repo: Repo, res: Result) -> None:
     rule = repo.cls(RULE, "Rule")
     effects = {}
@@ -582,7 +611,12 @@ def run_t5(repo: Repo, res: Result) -> None:
                     k = info.get("kind")
                     if k == "strtest":
                         term = info["term"]
-                        if term[1] != "startswith" or len(term) < 4 or not _safe_prefix_needle(term[3]):
+                        needle = _needle_kind(info["args"][0]) if info.get("args") else ("safe" if len(term) >= 4 and _safe_prefix_needle(term[3]) else "bare")
+                        if term[1] == "startswith" and needle == "safe":
+                            continue
+                        if term[1] == "startswith" and needle == "unknown":
+                            unknown.append(a)
+                        else:
                             node = info.get("node")
                             problems.append(f"`{ast.unparse(node) if node is not None else a}` is not bounded by the dot separator: a sibling such as `pkg.utils` is dropped as if it were a sub module of `pkg.util`")
                     elif k == "eq" and all(_plain_name(t_) or _safe_prefix_needle(t_) for t_ in info.get("terms", ())):
